@@ -22,6 +22,26 @@ Mutation sanity check (scratch copies of hypatia/query/__init__.py, quick tier, 
      semantics-preserving (a stale `uppers` entry is re-paired onto a fresh position and loses nothing) –
      correctly reported as shape drift only (`no-failing-input-found`), no failing input exists.
 A sabotaged hazard report (D5 hidden from `optsafe`) is caught as OPTSAFE-CONTRADICTION.
+
+`xopt` (mode `exotic`, 12% of the cases): trees over constants the Lean model cannot express - RangeValue as the
+value of Eq/NotEq/Any/NotAny on a field index, floats, tuples as containers, Names bound late (to a value, a
+RangeValue, a whole container), biased to the operand lists the optimiser folds and pairs.  Three opinions per
+tree: execute(optimize=True), execute(optimize=False), and `qtree.xsem`, an independent evaluation over the
+documents' values; the command's answer is `ok` iff they agree (the driver only acknowledges the line).  Trees
+meeting D2/D3/D5 are not generated (`qtree.xhazards` mirrors construct/negate/fold in Python); 3% carry a
+legacy tuple/list Eq constant under a fold = D23 (provisional finding of this stream, classified only when the
+optimised run raises TypeError, the other two agree and the fold contains such a constant).
+Quick tier, seed 0, 8000 cases: 4700 xopt trees (RangeValue 1850, float 2400, Name 2450, tuple/Name
+containers 440; folds: Any 1350, NotAny 800, All 250 - over RangeValue 1150, Name 1150, float 800; 460 with
+lower+upper bounds; 320 mixing same-named indexes); modes large 5% / wide 5% (as C04) / twocat 8% (1400 plain
+trees mixing same-named indexes of two catalogs); `optrepeat` (15% of the opt commands): a sibling query over the
+same operand objects and Not(q) are optimised and executed first, then q twice.
+Seeded changes C05_A-F all give VIOLATION with a failing input (E: applyAny without RangeValue, F: folding
+across same-named indexes).  Own mutations (scratch copies, quick, seed 0; all VIOLATION with a failing input):
+  N1 `Query.union` updates a > 32x bigger left operand in place        N2 `And._apply` > 16 operands stops at one doc
+  N3 `_optimize_eq` de-duplicates the folded values through a dict (Name and list constants are unhashable)
+  N4 the lowers/uppers pairing dictionaries are keyed by index NAME (pairs bounds of same-named indexes)
+  N5 `FieldIndex.applyGt(v)` = applyInRange(v + 1) (optimised = unoptimised, both differ from `xsem`)
 """
 from lib import qtree
 from lib.core import exc_name, Infra, split_ms
@@ -37,7 +57,12 @@ THEOREMS = ["Hyp.Query." + t for t in (
     "c05_illtyped_order_witness", "c05_end_to_end_partial", "c05_optimize_keeps_text_leaves", "c05_d3_exact", "c05_d5_exact", "c05_d2_exact")]
 CASES = {"quick": 8000, "thorough": 200000}
 BUDGET_S = {"quick": 40, "thorough": 700}
-RULE = ("catalogs of 1-4 real indexes with 0-25 documents, with and without no-value documents; trees biased to "
+RULE = ("modes: small 70% (below), exotic 12% (xopt: RangeValue / float / tuple-container / late-bound Name constants; "
+        "optimised vs unoptimised vs an independent Python evaluation, no Lean answer for these; away from D2/D3/D5, "
+        "D23 classified), twocat 8% (same-named indexes of two catalogs in one query), large 5% (50-400 documents, "
+        "skewed sizes), wide 5% (9-40 operands); 15% of the opt commands repeat the execution around a sibling "
+        "query over the same operand objects; small: "
+        "catalogs of 1-4 real indexes with 0-25 documents, with and without no-value documents; trees biased to "
         "several comparators on the same index (>= 3 range bounds, contradictory bounds, lo > hi), all 14 "
         "comparators, depth <= 4; each tree is executed with optimize=True and False, the optimised tree's "
         "shape is compared with the model's optimiser output, and the original query object is snapshotted "
@@ -51,7 +76,9 @@ LEVEL_TEXT = ("Lean 4 whole-tree theorem about the model of _optimize (Eq/NotEq 
               "proved counterexample); the optimiser model is tied to hypatia/query by comparing optimised tree "
               "shapes and results on real catalogs, and OptSafe is evaluated on every generated tree")
 LEVEL_NOTE = ("leaves answered at specification level; known findings D2, D3, D5 are mirrored by the model and "
-              "reported as KNOWN-FINDING; trusted: Lean kernel, sampled correspondence, harness")
+              "reported as KNOWN-FINDING; constants outside the model (RangeValue, floats, Names, containers) are "
+              "covered by a differential stream only (xopt, D23 found there); trusted: Lean kernel, sampled "
+              "correspondence, harness")
 TECHNIQUE = "Lean 4 proof over the optimiser model (loop invariant, induction on the tree) + differential correspondence"
 
 
